@@ -15,7 +15,8 @@ against a small real directory tree.  The entitlement inputs are solver variable
 * `friend(u)`, `listed(d, u)`      one z3 Bool per user (and directory) held in a membership proxy
                                     that is installed as `settings.users.friends` / `SharedDirectory.users`
 * `flags(u)`                        8-bit vector stored in the real `settings.users.blocked` dict
-* excluded phrases                  1..3 symbolic characters each, over an alphabet with both letter cases
+* excluded phrases                  engine.sstr.SStr, 1..3 symbolic characters each, over an alphabet with both letter cases;
+                                    lower/strip/split/regex on them stay symbolic (`re` stand-in, PStr paths, SymKeyDict term map)
 
 and every obligation is a z3 query against the pinned reference
     entitled(u, d) = EVERYONE or (FRIENDS and friend(u)) or (USERS and listed(d, u))
@@ -33,9 +34,13 @@ import z3
 from engine import symex
 from engine.symex import And, Or, Not, SBool
 from engine.vloop import VLoop
-from engine.c08sym import (Alphabet, SFlag, SymMembers, SPhrase, PStr, flag_has, phrase_ci_in, const_phrase)
+from engine import sstr, reshim
+from engine.c08sym import SFlag, SymMembers, PStr, SymKeyDict, flag_has, phrase_ci_in
 
 import aioslsk.shares.model as shares_model
+import aioslsk.shares.manager as shares_manager_mod
+import aioslsk.shares.utils as shares_utils_mod
+import aioslsk.search.model as search_model_mod
 from aioslsk.events import EventBus, MessageReceivedEvent
 from aioslsk.peer import PeerManager
 from aioslsk.protocol.messages import (
@@ -70,7 +75,7 @@ MODES = ['everyone', 'friends', 'users']
 UPLOADS, SEARCHES = int(BlockingFlag.UPLOADS), int(BlockingFlag.SEARCHES)
 # alphabet of the excluded phrases: every letter (both cases) of the query paths' words that matter,
 # a letter that occurs nowhere, digits/punctuation/separators and one non-ASCII cased pair
-ALPHA = Alphabet(cased='deginostzé', uncased=' .1\\')
+SIGMA = list('deginostz' + 'DEGINOSTZ' + 'éÉ' + ' .1\\')
 
 UNFINISHED = ('QUEUED', 'INITIALIZING', 'UPLOADING', 'PAUSED', 'INCOMPLETE', 'VIRGIN')
 PRE_STATES = ['QUEUED', 'INITIALIZING', 'UPLOADING', 'PAUSED', 'INCOMPLETE', 'ABORTED', 'COMPLETE', 'FAILED']
@@ -152,27 +157,58 @@ async def _noop(*a, **kw):
     return None
 
 
-class _QueryPathWrap:
-    """symbolic runs only: SharedItem.get_query_path still computes the path with the real code; the
-    result is handed on as a `str` subclass with identical characters whose `in` operator accepts a
-    symbolic phrase on its left (a plain str would raise TypeError in C)"""
+def _isinstance(obj, cls):
+    """builtins.isinstance for which a symbolic string is a str"""
+    if isinstance(obj, sstr.SStr) and (cls is str or (isinstance(cls, tuple) and str in cls)):
+        return True
+    return isinstance(obj, cls)
+
+
+class _StringEnv:
+    """symbolic runs only.  The server-excluded phrases are engine.sstr.SStr values; whatever the code under test does
+    to them has to stay inside the engine:
+    * SharedItem.get_query_path still computes the path with the real code; the result is handed on as a `str`
+      subclass with identical characters whose string methods accept a symbolic argument (a plain str would raise
+      TypeError in C);
+    * `re` in shares.manager / shares.utils / shares.model / search.model -> engine.reshim.ReShim (the real `re` for
+      plain strings, solver-decided matching / forking split for symbolic ones), `isinstance(x, str)` in
+      shares.manager accepts an SStr."""
 
     def __init__(self, on):
         self.on = on
+        self.saved = []
 
     def __enter__(self):
+        sstr.use_alphabet(SIGMA)
         if self.on:
+            import re as real_re
             self.orig = SharedItem.__dict__['get_query_path']
             orig = self.orig
 
             def get_query_path(item):
                 return PStr(orig(item))
             SharedItem.get_query_path = get_query_path
+            shim = reshim.ReShim()
+            for mod in (shares_manager_mod, shares_utils_mod, shares_model, search_model_mod):
+                if mod.__dict__.get('re') is real_re:
+                    self.saved.append((mod, 're', real_re))
+                    mod.__dict__['re'] = shim
+            self.saved.append((shares_manager_mod, 'isinstance', shares_manager_mod.__dict__.get('isinstance', _MISSING)))
+            shares_manager_mod.__dict__['isinstance'] = _isinstance
         return self
 
     def __exit__(self, *a):
         if self.on:
             SharedItem.get_query_path = self.orig
+            for mod, name, old in reversed(self.saved):
+                if old is _MISSING:
+                    mod.__dict__.pop(name, None)
+                else:
+                    mod.__dict__[name] = old
+            self.saved = []
+
+
+_MISSING = object()
 
 
 # --------------------------------------------------------------------------------
@@ -505,16 +541,9 @@ class World:
 
 
 def mk_phrase(c, name, length):
-    """a server-excluded phrase of `length` characters over ALPHA (either letter case)"""
-    if c.symbolic:
-        chars = []
-        for j in range(length):
-            b = c.fresh_int(f'{name}_c{j}', 0, len(ALPHA) - 1)
-            up = c.fresh_bool(f'{name}_u{j}')
-            c.assume(SBool(z3.Implies(up.e, b.e < ALPHA.nc)))
-            chars.append((b.e, up.e))
-        return SPhrase(chars, ALPHA)
-    return ''.join(ALPHA.char(c.fresh_int(f'{name}_c{j}', 0, len(ALPHA) - 1), c.fresh_bool(f'{name}_u{j}')) for j in range(length))
+    """a server-excluded phrase of `length` characters over SIGMA (either letter case): engine.sstr.SStr while
+    exploring, the plain str of the model in concrete replay"""
+    return sstr.fresh_str(c, name, length)
 
 
 # --------------------------------------------------------------------------------
@@ -528,7 +557,7 @@ def _guarded(body):
     """build the world, run the harness body, always tear the loop down (also when the engine cuts the path)"""
     def harness(c, dirs, **params):
         absent = (USERS[params.get('user', 0)],) if params.pop('absent', False) else ()
-        with _QueryPathWrap(c.symbolic):
+        with _StringEnv(c.symbolic):
             w = World(c, dirs, absent=absent, ops=params.pop('ops', ()))
             try:
                 body(c, w, **params)
@@ -546,6 +575,9 @@ def h_search(c, w, user=0, phrase_lens=(2,), query='song'):
     se._session = Session(User(ME), '1.2.3.4', '', 1, 1)
     phrases = [mk_phrase(c, f'ph{k}', n) for k, n in enumerate(phrase_lens)]
     w.run(se._on_message_received(MessageReceivedEvent(ExcludedSearchPhrases.Response(phrases), FakeConn(None))))
+    if c.symbolic:
+        # same keys, same WeakSets; additionally answers look-ups by a symbolic key (a piece of a phrase) through the solver
+        w.sm._term_map = SymKeyDict(w.sm._term_map)
     carrier = c.pick(CARRIERS, 'carrier')
     if carrier == 'distributed':
         msg = DistributedSearchRequest.Request(0x31, u, 77, query)
@@ -916,6 +948,34 @@ def h_overlap(c, w, first, second, prior=None, uploads=1, start=0, user_abort=0,
 # prelude: the proxies agree with the Python objects they stand for
 # --------------------------------------------------------------------------------
 
+def _h_string_proxies(c):
+    """prelude harness (no aioslsk): differential check of the string proxies against CPython"""
+    import itertools
+    sstr.use_alphabet(SIGMA)
+    n = 1 + c.choose(2, 'len')
+    p = sstr.fresh_str(c, 'p', n)
+    every = [''.join(t) for t in itertools.product(SIGMA, repeat=n)]
+    hay = c.pick(['Rock\\Song One.mp3', 'top song.flac', 'Zz.1 é'], 'hay')
+    op = c.pick(['in', 'lower_in_lower', 'find', 'startswith', 'dict_in', 'dict_get', 'reference'], 'op')
+    words = {'on': 1, 'so': 2, 'g': 3, 'song': 4, 'é': 5, 'ng': 6}
+    if op == 'in':
+        got, ref = (p in PStr(hay)), (lambda q: q in hay)
+    elif op == 'lower_in_lower':
+        got, ref = (p.lower() in PStr(hay).lower()), (lambda q: q.lower() in hay.lower())
+    elif op == 'find':
+        got, ref = PStr(hay).find(p), (lambda q: hay.find(q))
+    elif op == 'startswith':
+        got, ref = bool(PStr(hay).lower().startswith(p.lower())), (lambda q: hay.lower().startswith(q.lower()))
+    elif op == 'dict_in':
+        got, ref = (p.lower() in SymKeyDict(words)), (lambda q: q.lower() in words)
+    elif op == 'dict_get':
+        got, ref = SymKeyDict(words).get(p.lower(), 0), (lambda q: words.get(q.lower(), 0))
+    else:
+        got, ref = bool(symex.And(phrase_ci_in(p, hay))), (lambda q: q.lower() in hay.lower())
+    agree = [q for q in every if ref(q) == got]
+    c.check(Or(*[p == q for q in agree]) if agree else False, 'proxy_agrees_with_cpython', info=[op, hay, repr(got)])
+
+
 def prelude(tier):
     ensure_fs()
     notes = []
@@ -959,22 +1019,22 @@ def prelude(tier):
                 raise symex.HarnessError(f'SymMembers disagrees with set at {bits_a} {bits_b}')
             n += 1
     notes.append(f'SymMembers vs set: {n} pairs agree')
-    # SPhrase / PStr against str on constant phrases
-    hays = ['Rock\\Song One.mp3', 'top song.flac', 'Demo Song.mp3', '', 'S', 'so']
-    needles = ['', 's', 'S', 'so', 'SO', 'oN', 'ng ', 'zz', 'G.', 'É', 'éd', 'ONE', 'one.', 'G ON', 'g on', '\\S', '\\s']
-    assert all(ch in ALPHA.index for nd in needles for ch in nd)
-    n = 0
-    for h in hays:
-        for nd in needles:
-            ph = const_phrase(nd, ALPHA)
-            got, got_l, got_u = [x if isinstance(x, bool) else z3.is_true(z3.simplify(x)) for x in
-                                 (ph.occurs_in(h), ph.lower().occurs_in(h.lower()), ph.upper().occurs_in(h.upper()))]
-            if got != (nd in h) or got_l != (nd.lower() in h.lower()) or got_u != (nd.upper() in h.upper()):
-                raise symex.HarnessError(f'SPhrase disagrees with str: {nd!r} in {h!r}')
-            if (nd in PStr(h)) != (nd in h) or (nd.lower() in PStr(h).lower()) != (nd.lower() in h.lower()):
-                raise symex.HarnessError('PStr disagrees with str')
-            n += 1
-    notes.append(f'SPhrase/PStr vs str: {n} (phrase, path) pairs agree incl. lower()/upper()')
+    # PStr / SymKeyDict / phrase_ci_in (on engine.sstr) against str / dict: for a fully symbolic phrase p of length 1..2 the
+    # outcome of the proxy operation on each path must be the outcome CPython computes for every concrete p on that path
+    ex = symex.Explorer(_h_string_proxies, {}, 'prelude')
+    ex.run()
+    if ex.failures or ex.stats.inconclusive or not ex.exhausted or ex.stats.discharged == 0:
+        raise symex.HarnessError(f'string proxies disagree with str/dict: {[(f.label, f.info, f.model) for f in ex.failures[:2]]}')
+    notes.append(f'PStr / SymKeyDict / phrase_ci_in vs str / dict for every phrase of length 1..2 over the alphabet: '
+                 f'{ex.stats.paths} paths, {ex.stats.discharged} obligations discharged')
+    # the `re` stand-in answers like `re` for what shares.manager does with plain strings
+    import re as real_re
+    shim = reshim.ReShim()
+    pat = shares_manager_mod._QUERY_CLEAN_PATTERN
+    for text in ['rock/song one.mp3', 'top song.flac', 'demo song.mp3', 'so ng', 'a_b-c', '', '..']:
+        if shim.split(pat, text) != real_re.split(pat, text) or shim.split(pat, PStr(text)) != real_re.split(pat, text):
+            raise symex.HarnessError(f're stand-in disagrees with re.split on {text!r}')
+    notes.append('re stand-in == re.split(_QUERY_CLEAN_PATTERN, .) on plain strings (symbolic strings: validated by the C07/C09 preludes)')
     # the reference remote/query paths agree with what the shares manager hands out for the fixture tree
     sm = SharesManager(Settings(credentials={'username': ME, 'password': 'x'}), EventBus(), FakeNet())
     lp = VLoop()
@@ -1002,7 +1062,7 @@ META = {
     'explanation': 'Real managers are constructed with their real constructors on a virtual event loop over a real directory tree '
                    '(/tmp/verif_c08_fs, scanned by the real scan code). settings.users.friends and SharedDirectory.users are membership '
                    'proxies whose `in` forks on a z3 Bool; block flags are z3 bit-vectors combined with the real BlockingFlag members; '
-                   'excluded phrases are tuples of symbolic characters (letter class + case bit). Search replies, share listings, queue/transfer request handlers, '
+                   'excluded phrases are engine.sstr.SStr values (symbolic characters over a 24-letter alphabet with both cases). Search replies, share listings, queue/transfer request handlers, '
                    'the shares-changed management step and whole change->detection->management sequences are executed and every '
                    'observable (messages recorded on the fake network/connection, Transfer.state/abort_reason) is compared by z3 with '
                    'the reference predicate entitled/permitted over all values of those variables on the path.',
@@ -1027,8 +1087,16 @@ META = {
               'asyncio event loop -> engine.vloop.VLoop; run_in_executor is synchronous (real os.walk / os.path on /tmp/verif_c08_fs)',
               'settings.users.friends / SharedDirectory.users -> engine.c08sym.SymMembers (membership bit per user; validated against set)',
               'settings.users.blocked values -> engine.c08sym.SFlag (BV8; validated against BlockingFlag)',
-              'symbolic runs only: SharedItem.get_query_path returns the really computed path as a str subclass (same characters) '
-              'whose `in` accepts a symbolic phrase; validated against str',
+              'symbolic runs only: SharedItem.get_query_path returns the really computed path as a str subclass (engine.c08sym.PStr, same '
+              'characters) whose in/find/count/startswith/split/replace/== accept a symbolic string (answered by engine.sstr)',
+              'symbolic runs only: `re` in shares.manager / shares.utils / shares.model / search.model -> engine.reshim.ReShim (delegates to '
+              'the real re for plain strings; forking split / solver-decided search for symbolic ones), `isinstance(x, str)` in '
+              'shares.manager accepts an SStr',
+              'symbolic runs only, harness search: SharesManager._term_map is re-wrapped (same keys, same WeakSets) as '
+              'engine.c08sym.SymKeyDict right before the search request so that `term in _term_map` / `_term_map[term]` with a symbolic '
+              'term (a piece of a phrase) is decided by the solver; plain keys keep real hashing',
+              'prelude: PStr / SymKeyDict / phrase_ci_in are compared with str / dict for EVERY phrase of length 1..2 over the alphabet '
+              '(z3-decided per path), the re stand-in with re.split on plain strings',
               'management jobs are awaited directly (UserManager._management_job, TransferManager._management_job) instead of through '
               'their BackgroundTask timers; in harness overlap TransferManager._management_job is a task stepped one loop callback at a '
               'time and UserManager._management_job is driven inline between two steps (it must not suspend)',
@@ -1036,7 +1104,7 @@ META = {
     'data_variables': ['friend(u): Bool per user (3 users)', 'listed(d,u): Bool per directory and user',
                        'flags(u): BV8 per user in settings.users.blocked (all 256 values; bits SEARCHES=4, UPLOADS=32 decide)',
                        'every configuration change draws fresh friend/listed/flags variables (old and new values both symbolic)',
-                       'excluded phrase characters: (letter class Int, upper-case Bool) over the alphabet ' + repr(ALPHA.chars())],
+                       'excluded phrase characters: engine.sstr symbolic characters (bit-vector index) over the alphabet ' + repr(''.join(SIGMA))],
     'discriminants': ['directory shape and share mode per directory', 'requesting user', 'search carrier message (4)',
                       'message kind queue/transfer request', 'requested path: each shared file or one of 11 variants',
                       'upload state before the step (8) and abort reason (3)', 'kind of configuration change (8) and new share mode (3)',
